@@ -396,9 +396,15 @@ pub fn check(c: &ECase, st: &mut Stats) -> Result<(), String> {
         // re-posted immediately, under the same token and the same address
         let new_posts: Vec<(u16, u64, u32)> = dev.with(|d| d.h.postings[postings_before..].to_vec());
         if new_posts.len() != 1 || new_posts[0].0 != head || new_posts[0].1 != addr || Some(&(addr, new_posts[0].2)) != addr_of.get(&head) {
+            // in the ring but never announced to a notification-driven device?
+            let unannounced = new_posts.is_empty() && dev.with(|d| world::with(|w| d.qs.pending(w, d.h.q) > 0 && !matches!(d.qs.policy_for(d.h.q), Serve::Poll)));
             return Err(format!(
-                "{}: after delivering buffer {} (address {:#x}) the device saw these new postings: {:x?}; expected exactly that buffer again",
-                what, head, addr, new_posts
+                "{}: after delivering buffer {} (address {:#x}) the device saw these new postings: {:x?}; expected exactly that buffer again{}",
+                what,
+                head,
+                addr,
+                new_posts,
+                if unannounced { " -- the buffer is back in the available ring, but the device did not see it (was it notified?)" } else { "" }
             ));
         }
         let posted = dev.with(|d| d.h.posted.len());
@@ -512,8 +518,137 @@ pub fn strategy() -> impl Strategy<Value = ECase> {
         .prop_map(|(target, kind, offered, policy, ops, rounds)| ECase { target, kind, offered, policy, ops, rounds })
 }
 
-pub fn replay(_e: &str, case: &serde_json::Value) -> Result<(), String> {
+pub fn replay(e: &str, case: &serde_json::Value) -> Result<(), String> {
+    if e == "socket-rx" {
+        return sock_rx(&serde_json::from_value(case.clone()).map_err(|e| e.to_string())?, &mut Stats::default());
+    }
     check(&serde_json::from_value(case.clone()).map_err(|e| e.to_string())?, &mut Stats::default())
+}
+
+// ---------------------------------------------------------------------------------------------
+// socket receive: the third kind of stocked queue the property names. Every data packet the
+// device completes on the receive queue of VirtIOSocket<_, _, RX> is handed to the poll handler
+// once, with exactly its body, for every body length the receive buffer can hold.
+
+#[derive(Clone, Debug, Serialize, Deserialize)]
+pub struct SockRx {
+    pub kind: TK,
+    /// 0 => 64-byte, 1 => 512-byte, 2 => 4096-byte receive buffers
+    pub rxsel: u8,
+    pub policy: Serve,
+    /// body length selectors (mapped onto 0..=RX-44 with the boundaries over-represented)
+    pub lens: Vec<u16>,
+}
+
+struct SockRun<'a> {
+    c: &'a SockRx,
+    dev: Shared<crate::devs_vsock::VsockDev>,
+}
+
+impl WithT for SockRun<'_> {
+    type Out = Result<u64, String>;
+    fn call<T: Transport + 'static>(self, t: T) -> Self::Out {
+        match self.c.rxsel % 3 {
+            0 => self.body::<T, 64>(t),
+            1 => self.body::<T, 512>(t),
+            _ => self.body::<T, 4096>(t),
+        }
+    }
+}
+
+impl SockRun<'_> {
+    fn body<T: Transport + 'static, const RX: usize>(self, t: T) -> Result<u64, String> {
+        use crate::devs_vsock::Pkt;
+        use virtio_drivers::device::socket::{VirtIOSocket, VsockEventType};
+        let dev = self.dev;
+        let mut sock = match guard(|| VirtIOSocket::<LHal, T, RX>::new(t)) {
+            Caught::Ok(Ok(s)) => s,
+            other => return Err(format!("VirtIOSocket::new failed: {}", matches!(other, Caught::Ok(_)))),
+        };
+        let settle = |dev: &Shared<crate::devs_vsock::VsockDev>| {
+            for _ in 0..6 {
+                dev.turn_spin();
+            }
+        };
+        settle(&dev);
+        let stocked = dev.with(|d| d.h.rx_posted.len());
+        if stocked == 0 {
+            return Err("no receive buffer was posted after construction".into());
+        }
+        let max_body = RX - 44;
+        let bounds = [0usize, 1, 2, 467, 468, 469, 470, max_body.saturating_sub(1), max_body, max_body / 2];
+        let mut delivered = 0u64;
+        for (i, sel) in self.c.lens.iter().enumerate() {
+            let len = if *sel % 3 == 0 { bounds[(*sel as usize / 3) % bounds.len()].min(max_body) } else { *sel as usize % (max_body + 1) };
+            let payload: Vec<u8> = (0..len).map(|k| (k as u8).wrapping_mul(29) ^ (i as u8).wrapping_mul(7) ^ 0x51).collect();
+            let pkt = Pkt { src_cid: 2, dst_cid: 0x42, src_port: 1000 + i as u32, dst_port: 80, len: len as u32, ty: 1, op: 5, flags: 0, buf_alloc: 1 << 20, fwd_cnt: 0, payload: vec![], wire_len: len };
+            let ok = dev.with(|d| world::with(|w| {
+                let d = &mut *d;
+                d.h.inject(w, &mut d.qs, &pkt, &payload)
+            }));
+            if !ok {
+                return Err(format!("packet #{}: no receive buffer is posted ({} were stocked)", i, stocked));
+            }
+            let mut seen: Option<(usize, Vec<u8>, u32)> = None;
+            let r = match guard(|| {
+                sock.poll(|ev, body| {
+                    let l = match ev.event_type {
+                        VsockEventType::Received { length } => length,
+                        _ => usize::MAX,
+                    };
+                    seen = Some((l, body.to_vec(), ev.source.port));
+                    Ok(Some(ev))
+                })
+            }) {
+                Caught::Ok(r) => r,
+                Caught::Panic(p) => return Err(format!("packet #{} ({} bytes): poll: {}", i, len, p.render())),
+                Caught::Escape(e) => return Err(format!("packet #{}: {:?}", i, e)),
+            };
+            if !matches!(r, Ok(Some(_))) {
+                return Err(format!("packet #{}: a data packet with a {}-byte body (receive buffers of {} bytes) was not delivered: poll returned {:?}", i, len, RX, r));
+            }
+            match seen {
+                Some((l, b, port)) if l == len && b == payload && port == 1000 + i as u32 => {}
+                other => return Err(format!("packet #{}: delivered {:?}, the device wrote a {}-byte body", i, other.map(|x| (x.0, x.1.len(), x.2)), len)),
+            }
+            delivered += 1;
+            settle(&dev);
+            let now = dev.with(|d| d.h.rx_posted.len());
+            if now != stocked {
+                return Err(format!("packet #{}: {} receive buffers are posted after the poll, {} were stocked", i, now, stocked));
+            }
+            if let Some(e) = dev.with(|d| d.h.errors.first().cloned()) {
+                return Err(format!("packet #{}: reference peer: {}", i, e));
+            }
+        }
+        let _ = guard(move || drop(sock));
+        Ok(delivered)
+    }
+}
+
+pub fn sock_rx(c: &SockRx, st: &mut Stats) -> Result<(), String> {
+    let mut cfg = vec![0u8; 8];
+    cfg[..8].copy_from_slice(&0x42u64.to_le_bytes());
+    drv::setup_world(c.kind, 1 << 32, cfg, 64);
+    let dev = Shared::install(SimDev::new(3, c.policy, crate::devs_vsock::VsockDev::new()));
+    let n = with_transport(c.kind, 19, 8, SockRun { c, dev })??;
+    if let Some((tag, m)) = drv::fault_text() {
+        return Err(format!("[{}] {}", tag, m));
+    }
+    st.class_n("socket_packets_delivered", n);
+    let mut s = Sig::new();
+    s.add(0x50c).add(c.kind as u64).add(c.rxsel as u64 % 3);
+    for l in &c.lens {
+        s.add(*l as u64);
+    }
+    if c.lens.len() > 8 {
+        st.nontrivial(s.get(), || json!(c));
+    }
+    Ok(())
+}
+
+fn sock_strategy() -> impl Strategy<Value = SockRx> {
+    (drv::tk_strategy(), 0u8..3, drv::serve_strategy(), prop::collection::vec(any::<u16>(), 1..40)).prop_map(|(kind, rxsel, policy, lens)| SockRx { kind, rxsel, policy, lens })
 }
 
 pub fn run(ctx: &Ctx) -> Report {
@@ -538,12 +673,24 @@ pub fn run(ctx: &Ctx) -> Report {
         stats.merge(st);
         failure = f;
     }
+    if failure.is_none() {
+        // every boundary length for each buffer size, then generated sequences
+        let items: Vec<SockRx> = (0..3u8).flat_map(|rxsel| [Serve::OnNotify, Serve::Poll].into_iter().map(move |policy| SockRx { kind: TK::Model, rxsel, policy, lens: (0..30).map(|k| k * 3).collect() })).collect();
+        let (st, f) = crate::runner::run_items(ctx, "socket-rx", items, |c: &SockRx, st| sock_rx(c, st));
+        stats.merge(st);
+        failure = f;
+    }
+    if failure.is_none() {
+        let (st, f) = run_proptest(ctx, "socket-rx", 192, ctx.n(6_000, 400_000), sock_strategy, |c: &SockRx, st| sock_rx(c, st));
+        stats.merge(st);
+        failure = f;
+    }
     Report {
         stats,
         failure,
         info: PartInfo {
             level: "exploration",
-            rule: "proptest histories on OwningQueue<_,N,B> (N in {1,2,8,32}, B in {8,64,512}, handler returning Ok(Some)/Ok(None)/Err), VirtIOInput::pop_pending_event and VirtIOSound::latest_notification (all transports): the device completes any posted buffer (any order), bursts of 0..40 between polls, written length 0..B, followed by up to 300 burst/drain rounds (far more events than the queue size); plus deterministic runs of 3700 burst/drain rounds (> 65536 events, so the ring indices wrap on a fully stocked queue) per target. Oracle: deliveries = the device's completions in used-ring order, once each, exactly the written bytes; after each delivery the device sees exactly one new posting, with the same token and the same device address; posted + pending = N after every poll and N when drained. Non-trivial = more events than the queue size with an out-of-order pick; distinct = (target, transport, features, op kinds, event count).",
+            rule: "proptest histories on OwningQueue<_,N,B> (N in {1,2,8,32}, B in {8,64,512}, handler returning Ok(Some)/Ok(None)/Err), VirtIOInput::pop_pending_event and VirtIOSound::latest_notification (all transports): the device completes any posted buffer (any order), bursts of 0..40 between polls, written length 0..B, followed by up to 300 burst/drain rounds (far more events than the queue size); plus deterministic runs of 3700 burst/drain rounds (> 65536 events, so the ring indices wrap on a fully stocked queue) per target. Socket receive: VirtIOSocket<_,_,RX> (RX 64/512/4096) polled after the reference peer completes a data packet with a body of every boundary length and generated lengths 0..=RX-44: the handler sees exactly that body once and all receive buffers are posted again. Oracle: deliveries = the device's completions in used-ring order, once each, exactly the written bytes; after each delivery the device sees exactly one new posting, with the same token and the same device address; posted + pending = N after every poll and N when drained. Non-trivial = more events than the queue size with an out-of-order pick; distinct = (target, transport, features, op kinds, event count).",
             assumptions: vec!["a notification sent before DRIVER_OK is C08's concern and is tolerated here (the device scans its rings when DRIVER_OK is set)".into()],
             exhaustive: false,
             extra: json!({}),
